@@ -119,6 +119,9 @@ type Prop struct {
 	// Race: build the worker with -race as well; RacePhases lists the phases that run in it.
 	Race       bool
 	RacePhases []int
+	// HangKind: "" = a confirmed hang is attributed to C02 and only noted under this property;
+	// otherwise a confirmed hang is a violation of this property with this kind ("stall").
+	HangKind string
 	// PhaseBudget: share (percent) of the tier's wall budget per phase; empty = all to the last phase.
 	PhaseBudget []int
 	// Procs: GOMAXPROCS for workers (0 = default 1).
